@@ -9,15 +9,15 @@ import (
 
 // Profile states which type definitions are in a property's domain.
 type Profile struct {
-	Cfg       Cfg
-	MaxDepth  int  // nesting budget (default 3)
-	Null      bool // null.X types in field / map-value positions
-	Named     bool // catalog named types
-	Maps      bool
-	TopStruct bool // top level must be a struct
-	Opts      bool // flat / intern / proto tag options
-	JSONTags  bool
-	Skipped   bool // unexported and "-" fields
+	Cfg         Cfg
+	MaxDepth    int  // nesting budget (default 3)
+	Null        bool // null.X types in field / map-value positions
+	Named       bool // catalog named types
+	Maps        bool
+	TopStruct   bool // top level must be a struct
+	Opts        bool // flat / intern / proto tag options
+	JSONTags    bool
+	Skipped     bool // unexported and "-" fields
 	NoRecursive bool // exclude recursive catalog types
 	// ProtoMaps: every map field is tagged proto (C12 standard-protobuf domain)
 	ProtoMaps bool
@@ -441,13 +441,13 @@ func protoMapValueOK(v *TSpec) bool {
 
 // VProfile tunes value generation.
 type VProfile struct {
-	Cfg       Cfg
-	Depth     int  // recursion budget for recursive named types (default 3)
-	NoNaN     bool // finite, non-NaN floats only
-	NoInf     bool
-	JSONTimes bool // times restricted to years 1..9999
+	Cfg        Cfg
+	Depth      int  // recursion budget for recursive named types (default 3)
+	NoNaN      bool // finite, non-NaN floats only
+	NoInf      bool
+	JSONTimes  bool // times restricted to years 1..9999
 	NoNilElems bool // no nil entries in pointer slices
-	Small     bool // keep containers tiny
+	Small      bool // keep containers tiny
 }
 
 type vgen struct {
@@ -550,16 +550,16 @@ var f64Specials = []uint64{
 	1, 1<<63 | 1, // ± min denormal
 	0x7FEFFFFFFFFFFFFF, 0xFFEFFFFFFFFFFFFF, // ± max
 	0x3FF0000000000000, 0xBFF0000000000000, // ±1
-	0x0010000000000000,             // min normal
+	0x0010000000000000,                     // min normal
 	0x3FF0000000000080, 0x3F80000000000000, // bytes 0x80 / 0x00 patterns
-	0x400921FB54442D18, // pi
-	0x4415AF1D78B58C40, // 1e20
-	0x444B1AE4D6E2EF50, // 1e21
-	0x3EB0C6F7A0B5ED8D, // 1e-6
-	0x3E7AD7F29ABCAF48, // 1e-7
-	0x4340000000000000, // 2^53
+	0x400921FB54442D18,                     // pi
+	0x4415AF1D78B58C40,                     // 1e20
+	0x444B1AE4D6E2EF50,                     // 1e21
+	0x3EB0C6F7A0B5ED8D,                     // 1e-6
+	0x3E7AD7F29ABCAF48,                     // 1e-7
+	0x4340000000000000,                     // 2^53
 	0x43E0000000000000, 0xC3E0000000000000, // ±2^63 (int64 conversion boundary)
-	0x43F0000000000000, // 2^64
+	0x43F0000000000000,                     // 2^64
 	0x41E0000000000000, 0x41F0000000000000, // 2^31, 2^32
 	0x43E158E460913D00, // 1e19
 	0x433FFFFFFFFFFFFF, // 2^53-1
